@@ -196,7 +196,7 @@ func (in *Interp) callNative(a *act, nat *Native, args []*Value) *Value {
 		return Int(int64(len(nat.Self.Dict.M)))
 	case "Dict.keys", "Dict.values", "Dict.items":
 		// GUIDE does not list the dict methods; they are registered in types_methods.go.  The
-		// order of the result is unspecified (map order): the array is marked Unordered.
+		// entries come in ascending key order (by code since fix 6269628).
 		arity(nat.Name, args, 0)
 		var out []*Value
 		keys := make([]string, 0, len(nat.Self.Dict.M))
@@ -215,9 +215,7 @@ func (in *Interp) callNative(a *act, nat *Native, args []*Value) *Value {
 				out = append(out, Arr([]*Value{Str(k), v}))
 			}
 		}
-		res := Arr(out)
-		res.Arr.Unordered = true
-		return res
+		return Arr(out)
 	}
 	refuse("native function %q", nat.Name)
 	return nil
